@@ -193,14 +193,17 @@ fn caseflip(c: &Corpus, _seed: u64, tier: &str) -> Report {
         let li = LineIndex::new(s);
         let chars: Vec<char> = s.chars().collect();
         let first_variant = variant_of(&v0[0]);
-        for t in &toks {
+        for (ti, t) in toks.iter().enumerate() {
             let w = match &t.token { Token::Word(w) if w.quote_style.is_none() && w.value.is_ascii() => w, _ => continue };
             let kwname = if w.keyword != Keyword::NoKeyword { format!("{:?}", w.keyword) } else { format!("word:{}", w.value.to_ascii_uppercase()) };
             let off = match li.offset(t.location.line, t.location.column) { Some(x) => x, None => continue };
             let n = w.value.chars().count();
             if off + n > chars.len() || chars[off..off + n].iter().collect::<String>() != w.value { continue; }
-            // quick tier: each (keyword, statement variant, dialect) once; thorough: every occurrence
-            let key = (kwname.clone(), k, first_variant.clone());
+            // quick tier: each (keyword, previous token, next token, statement variant, dialect) once; thorough: every occurrence
+            // context-sensitive key: the same keyword after a different token is a different site
+            let prevk = toks[..ti].iter().rev().find(|x| !is_ws(&x.token)).map(|x| match &x.token { Token::Word(pw) if pw.keyword != Keyword::NoKeyword => format!("{:?}", pw.keyword), other => crate::canon::tok_variant(other) }).unwrap_or_default();
+            let nextk = toks[ti + 1..].iter().find(|x| !is_ws(&x.token)).map(|x| match &x.token { Token::Word(pw) if pw.keyword != Keyword::NoKeyword => format!("{:?}", pw.keyword), other => crate::canon::tok_variant(other) }).unwrap_or_default();
+            let key = (format!("{kwname}<{prevk}>{nextk}"), k, first_variant.clone());
             if tier != "thorough" && !seen_kw.insert(key) { continue; }
             distinct.insert((kwname.clone(), k));
             for mode in 0..3 {
